@@ -256,9 +256,9 @@ def pm_dirs(V):
             V.iff(bool(got), V.And(g.t_lo <= s.time_step, s.time_step <= g.t_hi, mod_contains(V, g.o[0], g.o[1], ang))))
 
 
-@obligation("C08", "goal_reached.trajectory", functions=F, bounds="trajectory of 1..3 kinematic states, goal = time + rectangle")
+@obligation("C08", "goal_reached.trajectory", functions=F, bounds="trajectory of 1..3 kinematic states, goal = time + circle")
 def goal_reached(V):
-    g = Goal(V, "g_", "rectangle", False, False)
+    g = Goal(V, "g_", "circle", False, False)  # (which state is reported does not depend on the kind of region; rotated rectangles: ks.rectangle)
     n = 1 + V.choice("n_states", 3)
     t0 = V.int("t0", 0)
     ps = [(V.real(f"s{i}_x", -B, B), V.real(f"s{i}_y", -B, B)) for i in range(n)]
